@@ -156,6 +156,7 @@ def gen_union(rng, tier):
     if rng.random() < 0.25:
         order.append(rng.choice(sks))      # the same sketch twice (equal tau)
     fed, any_est = 0, False
+    deser_unions = set()   # not reset: reset() after deserialize() is an open finding (RESET_WITNESS)
     for i, (sid, k, n) in enumerate(order):
         g.lines.append("umerge %d %d %s" % (uid, sid, draws(rng, k + 2, k + 2)))
         fed += min(n, k)
@@ -166,6 +167,7 @@ def gen_union(rng, tier):
         elif r < 0.42:
             d = g.new_id()
             g.lines.append("userde %d %d" % (uid, d))
+            deser_unions.add(d)
             if (fed > maxk or any_est) and not UNRESTRICTED:
                 # The gadget went through deserialize() in estimation mode: on the pinned code every later update
                 # throws (known finding update-after-deserialize) and get_result() can read uninitialised marks
@@ -180,6 +182,8 @@ def gen_union(rng, tier):
         elif r < 0.47:
             d = g.new_id()
             g.lines.append("ucopy %d %d" % (uid, d))
+            if uid in deser_unions:
+                deser_unions.add(d)
             uid = d
     d = res(uid)
     # the result is an ordinary sketch: keep updating it
@@ -191,7 +195,7 @@ def gen_union(rng, tier):
             g.lines.append("unew %d %d" % (u2, rng.choice([2, 8, 32])))
             g.lines.append("umerge %d %d %s" % (u2, d, draws(rng, 45, 45)))
             res(u2)
-    if rng.random() < 0.1:
+    if rng.random() < 0.1 and (uid not in deser_unions or UNRESTRICTED):
         g.lines.append("ureset %d" % uid)
         res(uid)
     return g.lines
@@ -712,8 +716,8 @@ CLAIM = dict(
           "draws, and the property oracle (totals, heavy-item inclusion, tau monotone, heap order, bounds order) runs on every trace."),
     note=("NOT formalised: the global 'subset-sum estimates are unbiased over the sampling randomness' statement about whole histories "
           "(only the one-step identity vo_one_step_unbiased is proved; the martingale argument is not). Floating-point rounding is not "
-          "modelled in the theorems: two findings exist only in floating point and have no Lean counterpart (union-result-throws, "
-          "update-throws-on-union-result); integer weights < 2^30 keep plain-sketch totals exact in the correspondence runs, union "
+          "modelled in the theorems: three findings exist only in floating point and have no Lean counterpart (union-result-throws, "
+          "update-throws-on-union-result, union-update-throws); integer weights < 2^30 keep plain-sketch totals exact in the correspondence runs, union "
           "totals are compared to 1e-9. The analytic fact lb_frac <= r_true/r <= ub_frac about bounds_binomial_proportions "
           "(sqrt/exp/pow) is a hypothesis of vo_subset_bounds_partial and is checked on traces only. get_result() 'returns' is a "
           "hypothesis of vo_union (it can throw for k <= 1 corner cases and in floating point). 'Smallest effective k' is read as the k of "
@@ -721,11 +725,11 @@ CLAIM = dict(
           "algorithm has. A change of the heap's tie-breaking is reported as a correspondence divergence (no failing input) although it "
           "preserves the property: array order of H is observable through the iterator and decides which slot a draw deletes. "
           "Generator restrictions around open findings: no get_result() on a deserialized estimation-mode union and no reset() of a "
-          "deserialized sketch in the random streams (both are exercised by dedicated witnesses; C16_UNRESTRICTED=1 lifts them). "
+          "deserialized sketch / union in the random streams (both are exercised by dedicated witnesses; C16_UNRESTRICTED=1 lifts them). "
           "Open findings on the pinned code (known_findings.json, proposed_fixes/C16-*): update after deserialize() of an "
           "estimation-mode sketch / union throws (m_ = 1); the pseudo-exact union coercer compares against NaN and does not re-heapify "
           "(results with H items lighter than tau / not heap ordered; later updates throw or evict heavy items); get_result() throws and "
-          "leaks for equal-tau inputs with large weights (absolute 1e-10 tolerance); update() of a union result can throw because "
+          "leaks for equal-tau inputs with large weights (absolute 1e-10 tolerance); update() of a union result and var_opt_union::update() itself can throw because "
           "total_wt_r_/r_ rounds one ulp above an H weight; decrease_k_by_1 reads uninitialised marks after union deserialize (UBSan); "
           "reset() after deserialize of an under-full sketch leads to a heap-buffer-overflow (ASan)."),
     technique="Lean 4 invariant proofs over an ops-only numeric class (Rat) + bit-exact differential correspondence (Float) with hook-supplied draws + trace oracle",
